@@ -440,6 +440,9 @@ func (g *Gen) mutation(c *Column) []any {
 	if c.Immutable {
 		return nil
 	}
+	if g.prof.SimpleWhere && ct.IsOptional() {
+		return nil // mutators on optional columns are C03's business
+	}
 	if ct.IsMap() {
 		if g.chance(500) {
 			v, _ := g.value(c)
@@ -461,7 +464,7 @@ func (g *Gen) mutation(c *Column) []any {
 		return []any{c.Name, "delete", ValueToWire(v, false)}
 	}
 	numeric := (ct.Key.Type == "integer" || ct.Key.Type == "real") && len(ct.Key.Enum) == 0
-	if numeric && (ct.IsScalar() || g.chance(300)) {
+	if numeric && (ct.IsScalar() || (g.chance(300) && !g.prof.SimpleWhere)) {
 		ops := []string{"+=", "-=", "*=", "/="}
 		if ct.Key.Type == "integer" {
 			ops = append(ops, "%=")
@@ -503,10 +506,15 @@ func (g *Gen) mutation(c *Column) []any {
 
 func (g *Gen) opMutate(t *Table) []Op {
 	var muts []any
+	used := map[string]bool{}
 	for i := 0; i < 1+g.pick(3); i++ {
 		c := t.Columns[t.ColNames[g.pick(len(t.ColNames))]]
+		if g.prof.SimpleWhere && g.prof.Name != "samerow" && used[c.Name] {
+			continue // several mutations of one column in one operation are C03/C11's business
+		}
 		if m := g.mutation(c); m != nil {
 			muts = append(muts, m)
+			used[c.Name] = true
 		}
 	}
 	if muts == nil {
